@@ -28,6 +28,18 @@ def class_desc(draw, max_alpha=3, max_stats=3, allow_prefix=True, tier="quick", 
         prefix = draw(words(alphabet, 0, 3))
         if any(p in prefix for p in pats):
             prefix = ""  # start classes are non-empty by construction (see DESIGN 3.2)
+    if k >= 2 and draw(st.integers(0, 5)) == 0:
+        # a class that factors (words.Factor): no letter of s2 may be followed by one of s1
+        cut = draw(st.integers(1, k - 1))
+        s1, s2 = alphabet[:cut], alphabet[cut:]
+        if draw(st.booleans()):
+            s1, s2 = s2, s1
+        across = [p for p in pats if not (set(p) <= set(s1) or set(p) <= set(s2))]
+        if across and draw(st.booleans()):
+            pats = [p for p in pats if p not in across]
+        pats = sorted(set(pats) | {b + a for b in s2 for a in s1})
+        if any(l not in s1 for l in prefix) or any(p in prefix for p in pats):
+            prefix = ""
     nstats = draw(st.sampled_from([0, 0, 1, 1, 2, 2, 3][: 4 + max_stats]))
     nstats = max(min_stats, min(nstats, max_stats))
     stats = [
@@ -84,6 +96,47 @@ def peel_desc(draw):
 
 
 @st.composite
+def factor_desc(draw):
+    return [
+        "Factor",
+        {
+            "cut": draw(st.integers(0, 1)),
+            "flip": draw(st.booleans()),
+            "swap": draw(st.booleans()),
+            "xf_left": draw(st.sampled_from(XF)),
+            "xf_right": draw(st.sampled_from(XF)),
+        },
+    ]
+
+
+def factor_settings(cls):
+    """The (cut, flip) settings with which words.Factor applies to the class
+    description (pure re-statement of its condition, for steering the generator)."""
+    alphabet, prefix, pats = cls[0], cls[1], cls[2]
+    out = []
+    if cls[3] or (len(cls) > 6 and cls[6]) or len(alphabet) < 2:
+        return out
+    for cut in range(len(alphabet) - 1):
+        for flip in (False, True):
+            s1, s2 = alphabet[: cut + 1], alphabet[cut + 1 :]
+            if flip:
+                s1, s2 = s2, s1
+            if any(l not in s1 for l in prefix):
+                continue
+            if not all(any(p in b + a for p in pats) for b in s2 for a in s1):
+                continue
+            ok = True
+            for p in pats:
+                if set(p) <= set(s1) or set(p) <= set(s2):
+                    continue
+                if not any(p[i] in s2 and p[i + 1] in s1 for i in range(len(p) - 1)):
+                    ok = False
+            if ok:
+                out.append((cut, flip))
+    return out
+
+
+@st.composite
 def unary_desc(draw):
     two_way = draw(st.integers(0, 3)) > 0
     if draw(st.integers(0, 3)) == 0:
@@ -133,7 +186,7 @@ def ver_descs(draw, has_stats, allow_pack=True, atoms_only=False):
 
 
 @st.composite
-def pack_desc(draw, has_stats=True, finite=False, atoms_only=False, allow_iterative=True, allow_pack=True):
+def pack_desc(draw, has_stats=True, finite=False, atoms_only=False, allow_iterative=True, allow_pack=True, factors=()):
     """A structurally random pack.  ``finite`` forces a Peel into the initial
     strategies (so that the universe is finite, as ParallelInfo requires)."""
     initial, inferral, expansion, sym = [], [], [], []
@@ -165,6 +218,15 @@ def pack_desc(draw, has_stats=True, finite=False, atoms_only=False, allow_iterat
         expansion.append(s)
     if not have_expand and draw(st.integers(0, 9)) < 9:
         expansion[-1].append(draw(expand_desc()))
+    if draw(st.integers(0, 7)) < (6 if factors else 1):
+        f = draw(factor_desc())
+        if factors and draw(st.integers(0, 4)) > 0:
+            f[1]["cut"], f[1]["flip"] = draw(st.sampled_from(list(factors)))
+        where = draw(st.integers(0, 2))
+        if where == 0:
+            initial.append(f)
+        else:
+            expansion[draw(st.integers(0, len(expansion) - 1))].insert(0, f)
     if has_stats and draw(st.integers(0, 5)) == 0:
         tw = draw(st.booleans())
         where = draw(st.sampled_from(["initial", "expansion"]))
@@ -249,7 +311,7 @@ def scenario(draw, tier="quick", dbs=None, finite=False, atoms_only=False, allow
     else:
         cls = draw(class_desc(tier=tier, min_stats=min_stats))
         pack = draw(pack_desc(has_stats=bool(cls[4]), finite=finite, atoms_only=atoms_only,
-                              allow_iterative=allow_iterative, allow_pack=allow_pack))
+                              allow_iterative=allow_iterative, allow_pack=allow_pack, factors=factor_settings(cls)))
         db = draw(st.sampled_from(dbs or DBS))
     call = draw(call_desc())
     if call.get("smallest") and (len(cls[0]) >= 3 or draw(st.booleans())):
